@@ -108,6 +108,18 @@ async def drive_async(kind: str):
 
     auth = kind in ("bind_ack_auth", "alter_resp")
     rpcc = await async_create_rpc_connection("dc", 135, username="u" if auth else None, password="p" if auth else None, auth_protocol="ntlm" if auth else None)
+    if _form[0] % 2:
+        # (as in the sync driver) every other execution uses `async with`, the way the library's own GetKey path does
+        sentinel = object()
+        out: t.Any = sentinel
+        async with rpcc:
+            if kind.startswith("resp") or kind == "fault":
+                out = await rpcc.request(0, 3, b"stub-data")
+            else:
+                out = await rpcc.bind(contexts=_contexts())
+        if out is sentinel:
+            return "WITH-BLOCK-LEFT-SILENTLY: an error raised inside it was swallowed by __aexit__"
+        return out
     try:
         if kind.startswith("resp") or kind == "fault":
             return await rpcc.request(0, 3, b"stub-data")
